@@ -52,6 +52,23 @@ COMPONENTS = [
      [('MC_hb1.cfg', 'TaskSet: inline/queued/ring/bulk/force-queued paths, throwers, tryWait+wait, set reused after a delivered exception, destructor', 'quick'),
       ('MC_hb2.cfg', 'ConcurrentTaskSet: racing throwers, fork-join recursion, two scheduling threads, waiter != creator, nested set with cascading cancel (child list + mutex)', 'quick'),
       ('MC_hb3.cfg', 'kHeavy (schedulePlaced/bulkPlaced), 2-thread pools, cancel from a second thread, 4 tasks from two threads', 'thorough')]),
+    # (MC_hbx_* = exactly the extracted orders; the MC_hb_* variants of spec/future assume an acquire before dealloc and
+    #  were only used while the release-only last decrement of the reference count was an open finding: fix 3ffa040)
+    ('future', 'spec/future',
+     ['FutureBase.tla', 'WhenAll.tla', 'Future.tla', 'FutureHB.tla', 'MCFutureHB.tla'] +
+     ['MC_hbx_%s.cfg' % n for n in ('drop', 'two', 'then', 'then2', 'wall2', 'wany', 'timed', 'wall', 'wallt', 'wanyt', 'wany3')],
+     ['detail/future_impl.h', 'detail/future_impl2.h', 'detail/completion_event_impl.h'], 'OrdersFuture', 'MCFutureHB.tla',
+     [('MC_hbx_two.cfg', 'Future: queue runner vs inline waiter, 2 owners get + destroy', 'quick'),
+      ('MC_hbx_then.cfg', 'Future::then before/while/after completion, continuation read by main', 'quick'),
+      ('MC_hbx_drop.cfg', 'creator drops its handle while the queue thread runs the functor', 'quick'),
+      ('MC_hbx_wanyt.cfg', 'when_any tuple overload', 'quick'),
+      ('MC_hbx_wallt.cfg', 'when_all tuple overload', 'quick'),
+      ('MC_hbx_then2.cfg', 'two threads push on one then-chain (push/take CAS failures)', 'thorough'),
+      ('MC_hbx_wall2.cfg', 'when_all of 2 inputs (iterators)', 'thorough'),
+      ('MC_hbx_wany.cfg', 'when_any of 2 inputs (iterators)', 'thorough'),
+      ('MC_hbx_timed.cfg', 'wait_for / wait_until / is_ready', 'thorough'),
+      ('MC_hbx_wall.cfg', 'when_all + destruction of inputs', 'thorough'),
+      ('MC_hbx_wany3.cfg', 'when_any, 2 queue threads + getter', 'thorough')]),
 ]
 # components whose code uses std::atomic_thread_fence: composed with spec/lib/MemOrderF.tla.  `tentative` cfgs additionally
 # count the discarded tentative reads of losing stealers: a violation there is replayed on the real deque and reported
